@@ -27,6 +27,7 @@ type VxReplay struct {
 	Sched   [][]int             `json:"sched"`
 	Rounds  int                 `json:"rounds"`
 	VisAll  bool                `json:"visall"`
+	Repeat  int                 `json:"repeat"`
 
 	Clock          int64
 	mu             sync.Mutex
@@ -83,7 +84,14 @@ func VxRunReplays(jobsFile, outFile string, dispatch map[string]func([]int64)) {
 			if !ok {
 				panic("no such harness: " + j.Harness)
 			}
-			fn(j.Args)
+			n := j.Repeat
+			if n < 1 {
+				n = 1
+			}
+			for i := 0; i < n; i++ {
+				j.pos = nil
+				fn(j.Args)
+			}
 		}()
 		select {
 		case <-done:
